@@ -1,7 +1,9 @@
 """C11 (C): free-running concurrent stress on the real engine (harness op vis_stress): ingesters on several indexes,
 millisecond flush timers, forced rotations and concurrent queries of several forms; each answer is checked against the
 bounds the spec gives (ids flushed-visible before the query began  subset-of  answer  subset-of  ids ever ingested, each once);
-a watchdog reports a stall as deadlock; at quiescence the contents must equal the sequential result."""
+a watchdog reports a stall as deadlock; at quiescence the contents must equal the sequential result.  Every third run
+lets events bring late columns; two (quick) / six (thorough) runs bring 12 never-seen column names per event with six
+searchers, so that every flush rewrites the open segment's column tables while searches copy them."""
 import vlib
 
 
